@@ -37,7 +37,7 @@ func (w *World) observedWorker(fn *ssa.Function) *ssa.Function {
 		if h == nil || cv.Call.IsInvoke() || h.Pkg == nil || h.Pkg != fn.Pkg || token.IsExported(h.Name()) || len(h.Blocks) == 0 || h.Parent() != nil {
 			continue
 		}
-		if len(cv.Call.Args) != len(fn.Params) || !types.Identical(h.Signature.Results(), fn.Signature.Results()) {
+		if len(cv.Call.Args) != len(fn.Params) || resultProjection(h.Signature.Results(), fn.Signature.Results()) == nil {
 			continue
 		}
 		same := true
@@ -65,7 +65,8 @@ func (w *World) observedWorker(fn *ssa.Function) *ssa.Function {
 	// every return hands back the worker's results, position by position - or, written out per outcome, nil for the
 	// error where the worker's error is known nil, and the zero value of another result where the worker failed and
 	// itself returns that zero value with every error
-	nRes := fn.Signature.Results().Len()
+	nRes := h.Signature.Results().Len()
+	proj := resultProjection(h.Signature.Results(), fn.Signature.Results())
 	ei := errorResultIndex(h)
 	var errV ssa.Value
 	if ei >= 0 {
@@ -102,7 +103,8 @@ func (w *World) observedWorker(fn *ssa.Function) *ssa.Function {
 		if fn.Recover != nil && r.Block() == fn.Recover {
 			return nil
 		}
-		for i, res := range r.Results {
+		for k, res := range r.Results {
+			i := proj[k] // the worker's result this position hands back
 			lv := w.leaves(res, r, false)
 			if len(lv) != 1 {
 				return nil
@@ -235,4 +237,31 @@ func readsOnly(w *World, v ssa.Value, depth int) bool {
 		}
 	}
 	return true
+}
+
+// resultProjection maps each result of the entry point to the result of the worker it hands back: the worker's results are
+// the entry point's, in order, possibly with plain numbers / flags / texts in between that exist for the observers only
+// (a count for a metric). nil when the signatures do not fit.
+func resultProjection(worker, entry *types.Tuple) []int {
+	var proj []int
+	j := 0
+	for i := 0; i < entry.Len(); i++ {
+		for j < worker.Len() && !types.Identical(worker.At(j).Type(), entry.At(i).Type()) {
+			if b, ok := worker.At(j).Type().Underlying().(*types.Basic); !ok || b.Info()&(types.IsNumeric|types.IsBoolean|types.IsString) == 0 {
+				return nil
+			}
+			j++
+		}
+		if j >= worker.Len() {
+			return nil
+		}
+		proj = append(proj, j)
+		j++
+	}
+	for ; j < worker.Len(); j++ {
+		if b, ok := worker.At(j).Type().Underlying().(*types.Basic); !ok || b.Info()&(types.IsNumeric|types.IsBoolean|types.IsString) == 0 {
+			return nil
+		}
+	}
+	return proj
 }
